@@ -514,34 +514,57 @@ func checkErrDiscipline(c *Ctx, rule string, f *FuncInfo, want func(id string) b
 	for _, l := range f.Lits {
 		bodies = append(bodies, p.LitBody(f, l))
 	}
-	n := 0
+	// The exception table names a swallowing site by its ordinal among the function's calls of that callee. Reordering
+	// branches moves ordinals without changing behaviour, so the table is applied as a budget per (function, callee): as
+	// many swallowing sites as the table lists are accepted; one more is reported.
+	budget := map[string][]string{}
+	for k, why := range exceptions {
+		if i := strings.LastIndex(k, "#"); i > 0 && strings.HasPrefix(k, f.ID+":") {
+			budget[k[:i]] = append(budget[k[:i]], why)
+		}
+	}
+	type site struct {
+		key, pos, msg string
+		bad           bool
+	}
+	var all []site
 	for _, b := range bodies {
 		sites, blanks := b.errDefsIn(want)
 		for _, s := range sites {
-			n++
-			key := callKey(f, s.Call)
 			v := b.checkErrSite(s)
-			if why, ok := exceptions[key]; ok {
-				c.ok(rule, key, p.Pos(s.Call.Pos()), "accepted exception: "+why)
-				continue
-			}
+			st := site{key: callKey(f, s.Call), pos: p.Pos(s.Call.Pos())}
 			if v.Kind == "ok" {
-				c.ok(rule, key, p.Pos(s.Call.Pos()), "error of "+shortCallee(calleeID(b.Info(), s.Call))+" is tested on every path and surfaced")
+				st.msg = "error of " + shortCallee(calleeID(b.Info(), s.Call)) + " is tested on every path and surfaced"
 			} else {
-				c.fail(rule, key, p.Pos(s.Call.Pos()), v.Kind+": "+v.Detail)
+				st.bad, st.msg = true, v.Kind+": "+v.Detail
 			}
+			all = append(all, st)
 		}
 		for _, call := range blanks {
-			n++
-			key := callKey(f, call)
-			if why, ok := exceptions[key]; ok {
-				c.ok(rule, key, p.Pos(call.Pos()), "accepted exception: "+why)
-				continue
-			}
-			c.fail(rule, key, p.Pos(call.Pos()), "blank: the error result of "+shortCallee(calleeID(b.Info(), call))+" is discarded")
+			all = append(all, site{key: callKey(f, call), pos: p.Pos(call.Pos()), bad: true,
+				msg: "blank: the error result of " + shortCallee(calleeID(b.Info(), call)) + " is discarded"})
 		}
 	}
-	return n
+	nbad := map[string]int{}
+	for _, st := range all {
+		if st.bad {
+			nbad[st.key[:strings.LastIndex(st.key, "#")]]++
+		}
+	}
+	for _, st := range all {
+		base := st.key[:strings.LastIndex(st.key, "#")]
+		switch why, exact := exceptions[st.key]; {
+		case exact:
+			c.ok(rule, st.key, st.pos, "accepted exception: "+why)
+		case !st.bad:
+			c.ok(rule, st.key, st.pos, st.msg)
+		case nbad[base] <= len(budget[base]):
+			c.ok(rule, st.key, st.pos, "accepted exception (site moved within the function): "+budget[base][0])
+		default:
+			c.fail(rule, st.key, st.pos, st.msg)
+		}
+	}
+	return len(all)
 }
 
 // retryOperandReturnsOwnError: inside function literals passed to backoff.Retry, every returned error expression
